@@ -15,7 +15,7 @@ STATICS = ["ACTOR_IDS", "DEAD_LETTER_COUNT", "CONFIGURED_DEFAULT_MAILBOX_CAPACIT
 EFFECTFUL = {
     # shim: channels, hooks, globals
     "send", "try_send", "blocking_send", "poll_recv", "recv", "try_recv", "close", "is_closed",
-    "upgrade", "strong_count", "channel", "blocking_recv", "build", "vx_thread_enter", "vx_thread_exit",
+    "upgrade", "strong_count", "channel", "blocking_recv", "build", "vx_thread_enter", "vx_thread_exit", "yield_now", "sleep",
     "on_start", "poll_on_run", "on_run", "on_stop", "handle", "on_tell_result",
     "drop", "lock", "fetch_add", "get", "get_or_init", "set", "vx_drop_opt_guard", "drop__WaitForGuard",
     "vx_emit_dead_letter",
@@ -620,8 +620,8 @@ FUNCTION_PROPERTIES = {
 FEATURE_INDEPENDENT = {"C01", "C02", "C03", "C04", "C05", "C06", "C07", "C08", "C09", "C10", "C11", "C13", "C16", "C17"}
 
 # properties part of whose code is not under contract: fixed bounded scenarios stand in (labelled bounded)
-ALWAYS_STAND_IN = {"C17": ["blocking_timeout", "blocking_api"], "C10": ["blocking_timeout"], "C13": ["blocking_timeout", "blocking_api"],
-                   "C01": ["blocking_timeout"]}
+ALWAYS_STAND_IN = {"C17": ["blocking_timeout", "blocking_api", "blocking_parked_then_dies"], "C10": ["blocking_timeout", "blocking_parked_then_dies"],
+                   "C13": ["blocking_timeout", "blocking_api", "blocking_parked_then_dies"], "C01": ["blocking_timeout", "blocking_parked_then_dies"]}
 # fixed scenarios that stand in when a property's text is undecided by extraction (besides the schedule explorer)
 _DD = ["dd_cycles", "dd_no_residue", "dd_cycle_first_edge_parked"]
 UNDECIDED_STAND_IN = {
